@@ -374,6 +374,20 @@ def run(ctx: Ctx):
     c.wrappers()
     c.means()
     c.task_structure()
+    # "survives an AOEF save/load with every metric intact": the field-carry / elision rules of C01 on the three
+    # metric-carrying adapters (anchored files io/aoef/evaluation.py, clip_evaluation.py, match.py)
+    from .c01 import C01
+    with ctx.delegated("C01/"):
+        ctx.rule("R01.1", "field carry of metrics / score in the metric-carrying adapters", 20)
+        ctx.rule("R01.2", "inverse field maps of metrics / score", 6)
+        ctx.rule("R01.3", "elision / filter agreement of metrics / score", 4)
+        c1 = C01(ctx)
+        for leaf in c1.ao.leaves.values():
+            if leaf.name in ("MatchAdapter", "ClipEvaluationAdapter"):
+                c1.check_pair(leaf.name, leaf.ci, leaf.D, leaf.O, leaf.writer_name, leaf.reader_name, [], only={"metrics", "score"})
+        for col in c1.ao.collections:
+            if col.ci.name == "EvaluationAdapter":
+                c1.check_pair(col.ci.name, col.ci, col.D, col.O, "to_aoef", "to_soundevent", [], collection=True, only={"metrics", "score"})
     return EXPLANATION, ASSUMPTIONS
 
 
